@@ -56,7 +56,7 @@ func checkC17(c *core.Ctx, r *core.Report) {
 			checkLifecycle(c, r, fn, call, deleteQ, delegates)
 		}
 	}
-	r.Floor("PAIR", "query start sites outside package query", nStarts, 5)
+	r.Floor("PAIR", "query start sites outside package query", nStarts, 3)
 	// delegation relies on the state channel never being closed
 	{
 		stateChan := c.Field(pkgQuery, "RunningQueryState.StateChan")
